@@ -561,4 +561,20 @@ def symmetry_exact(repo: Repo) -> RuleRun:
 
 symmetry_exact.rule_id = "C13.SYMMETRY-EXACT"
 
-RULES = [rollback, probe_restore, who_writes_points, backport_rule, warning_filter, affine_kinds, link_relation, owns_geometry, angle_dimension, float_stores, backport_table, mirror_matrix, grid_quality, symmetry_exact]
+def match_tolerance(repo: Repo, prop: str = PROP, rule: str = "C13.MATCH-TOLERANCE") -> RuleRun:
+    """'only clamped vertices move': clamps, links and fixed points are attached to the grid point AT the given position - matched by distance against the
+    library tolerance, purely absolute and of a non-negative magnitude. A relative part (numpy's allclose / isclose default
+    rtol = 1e-5) reaches neighbouring points of a fine mesh far from the origin; a signed or one-sided quantity (max(a - b))
+    matches everything on one side."""
+    from .. import tolerance
+
+    r = RuleRun(prop, rule, floor=3, what="GridBase.add_clamp / add_link and SmootherBase.fix_points match grid points by absolute distance against the library tolerance (no relative band, no signed quantity)")
+    r.exhaustive = True
+    tolerance.check_functions(r, repo, ["optimize.grid.GridBase.add_clamp", "optimize.grid.GridBase.add_link", "optimize.smoother.SmootherBase.fix_points"], scan_modules=("optimize.grid", "optimize.smoother", "optimize.junction"))
+    return r
+
+
+match_tolerance.rule_id = "C13.MATCH-TOLERANCE"
+
+
+RULES = [rollback, probe_restore, who_writes_points, backport_rule, warning_filter, affine_kinds, link_relation, owns_geometry, angle_dimension, float_stores, backport_table, mirror_matrix, grid_quality, symmetry_exact, match_tolerance]
